@@ -53,9 +53,13 @@ def judge_graph(g, doc, counts=None):
     probs.append(("components", "connected_components {} expected {}".format(
         sorted(sorted(names_of(c)) for c in cc), R.fmt_part(want))))
   # segment_connected_component, by name and by instance
+  last = list(doc.segs)[-1] if doc.segs else None
   for n in doc.segs:
-    cls = R.component_of(doc, n)
-    for arg, how in ((n, "name"), (g.segment(n), "line")):
+    cls = [c for c in want if n in c][0]
+    # by name for every segment; by Line instance for the last one (the two
+    # entry forms differ only in how the name is obtained)
+    for arg, how in (((n, "name"), (g.segment(n), "line")) if n == last
+                     else ((n, "name"),)):
       r = names_of(g.segment_connected_component(arg))
       ncalls += 1
       if sorted(r) != sorted(cls):
@@ -407,7 +411,7 @@ def run(ctx):
   run_family(ctx, "gfa2_twins", ge.family_gfa2_twins(ctx.tier))
   run_family(ctx, "gfa2_mixed", ge.family_gfa2_mixed(ctx.tier))
   px = CtxProxy(ctx)
-  plan = ([("c16.g1", 3), ("c16.g2", 3), ("c16.h1", 5), ("c16.h2", 5)]
+  plan = ([("c16.g1", 3), ("c16.g2", 3), ("c16.h1", 4), ("c16.h2", 4)]
           if ctx.quick else
           [("c16.g1", 4), ("c16.g2", 4), ("c16.h1", 6), ("c16.h2", 6)])
   done = {}
